@@ -17,6 +17,10 @@ Driver of C18. Two case kinds (payload, space separated):
   line of a marked statement; result: `pos,line` of the node the thread is suspended on = the
   marked token.
 
+* `U <lo> <hi>` — sweep: unicode.IsSpace / IsControl / IsNumber and utf8.DecodeRune against the
+  model's `isSpace` / `isControl` / `isNumber` / `decodeRune` for every code point of the range
+  (quick: U+0000–U+2FFF, thorough: all of U+0000–U+111FFF incl. surrogates and out-of-range).
+
 * `S <ref-hex> <var-hex> <tree>` — statement separation: `var` is the comment-free program `ref`
   with comments put into its gaps; result: the canonical tree (or parse error kind) the real
   parser must produce for `var` = the one it produced for `ref` (shipped in the payload),
@@ -237,6 +241,24 @@ def breakCase (src : List Nat) (off : Nat) : String :=
     s!"{t.pos},{t.line}" ++ (if t.line > 1 then "\tnt=1" else "")
       ++ (if t.line = lineOf inp off then "" else s!"\tkf=unexplained-position\tspec={off},{lineOf inp off}")
 
+/-- the bare UTF-8 bit layout of `cp` (also for surrogates and values above U+10FFFF) -/
+def rawUTF8 (cp : Nat) : List Nat :=
+  if cp < 0x80 then [cp]
+  else if cp < 0x800 then [0xC0 + cp / 64, 0x80 + cp % 64]
+  else if cp < 0x10000 then [0xE0 + cp / 4096, 0x80 + cp / 64 % 64, 0x80 + cp % 64]
+  else [0xF0 + cp / 262144, 0x80 + cp / 4096 % 64, 0x80 + cp / 64 % 64, 0x80 + cp % 64]
+
+/-- `U` cases: the model's isSpace / isControl / isNumber / decodeRune on every code point of the
+    range (two hex digits each, see c18Sweep in the harness) -/
+def sweepCase (lo hi : Nat) : String :=
+  String.ofList ((List.range (hi - lo)).flatMap fun i =>
+    let cp := lo + i
+    let b := rawUTF8 cp
+    let d := decodeRune b.toArray 0
+    let bits := (if isSpace cp then 1 else 0) + (if isControl cp then 2 else 0) + (if isNumber cp then 4 else 0)
+      + (if d.1 = cp && d.2 = b.length then 8 else 0)
+    [hexDigit bits, hexDigit d.2])
+
 def runCase (payload : String) : String :=
   match payload.splitOn " " with
   | ["L", h] => match hexDecode h with
@@ -248,6 +270,9 @@ def runCase (payload : String) : String :=
   | ["E", k, h, off, calloff] => match hexDecode h with
     | some src => errCase k src off (some calloff)
     | none => "bad-payload"
+  | ["U", lo, hi] => match lo.toNat?, hi.toNat? with
+    | some lo, some hi => sweepCase lo hi
+    | _, _ => "bad-payload"
   | ["B", h, off] => match hexDecode h, off.toNat? with
     | some src, some o => breakCase src o
     | _, _ => "bad-payload"
